@@ -1,7 +1,7 @@
 (* Correspondence and monitor for C01, evaluated on cases written by harness/props/c01.py. *)
 From Coq Require Import NArith List Bool Arith.
 Import ListNotations.
-From HV Require Export lib.Harness model.Validity model.Builder spec.BuilderWFS model.Builder2 spec.Builder2WFS spec.Builder2LiveS model.Builder3.
+From HV Require Export lib.Harness model.Validity model.Builder spec.BuilderWFS model.Builder2 spec.Builder2WFS spec.Builder2LiveS model.Builder3 spec.Builder3S.
 Local Open Scope N_scope.
 
 (* ------------------------------------------------------------------ equality of literals *)
@@ -64,7 +64,9 @@ Inductive case :=
 | CPrem2 (tys : list tyinfo) (p : prog2)
 (* fourth pass: a program inside the third builder model of model/Builder3.v (functions, modules, control-flow graphs),
    with the table of interned polymorphic signatures *)
-| CProg3 (sigs : list sinfo) (p : prog3) (subs : list prog3) (h : vhugr) (same : bool) (fake : bool).
+| CProg3 (sigs : list sinfo) (p : prog3) (subs : list prog3) (h : vhugr) (same : bool) (fake : bool)
+(* the program of a CProg3 case alone: the premise of C01_builder3_child_tags (spec/Builder3S.v) *)
+| CPrem3 (p : prog3) (subs : list prog3).
 
 (* the model run on the program gives the implementation's document *)
 Definition corr (c : case) : bool :=
@@ -89,6 +91,7 @@ Definition mon (c : case) : bool :=
   | CProg2 _ h same _ => same && valid h
   | CPrem2 _ _ => true
   | CProg3 _ _ _ h same _ => same && valid h
+  | CPrem3 _ _ => true
   end.
 
 (* the premises of C01_builder_valid (spec/BuilderWFS.v: wf_prog; and the type table) on an in-model program *)
@@ -101,6 +104,8 @@ Definition prem (c : case) : bool :=
   | CPrem2 tys p => croot_ok p && wt_prog2 tys p && r_table tys &&
                      (* fourth pass: the liveness-aware premises of rules 9, 10, 11 (spec/Builder2LiveS.v) *)
                      ord_prog2 p && lin_prog2 tys p
+  (* the premise of rule 1 for the third language (spec/Builder3S.v) *)
+  | CPrem3 p subs => croot3s p subs
   | _ => true
   end.
 (* diagnostics: which of the fourth-pass premises fails *)
